@@ -140,11 +140,25 @@ func Points() []NamedPt {
 	return ptsAll
 }
 
-// Lambdas returns the projective scalings used on the real curve.
+// Lambdas returns the projective scalings used on the real curve, most diverse first (callers may take a prefix).
+// Value-structured ones (1, 2, p-1, 2^128, R, R^-1) and raw-structured ones: lambda whose *Montgomery limbs* (what
+// the code actually stores in Z) are a sparse pattern - a single limb equal to 2^32, 2^63 or 1 - so that zero
+// tests and comparisons that look at only part of a limb are exposed.
 func Lambdas() []*big.Int {
+	raw := func(l [4]uint64) *big.Int { return ref.Unmont(l, ref.P) }
 	out := []*big.Int{
-		big.NewInt(1), big.NewInt(2), new(big.Int).Sub(ref.P, big.NewInt(1)), new(big.Int).Lsh(big.NewInt(1), 128),
-		ref.Mod(ref.Two256(), ref.P), ref.Mod(new(big.Int).ModInverse(ref.Two256(), ref.P), ref.P),
+		big.NewInt(1),
+		raw([4]uint64{1 << 32, 0, 0, 0}),
+		new(big.Int).Sub(ref.P, big.NewInt(1)),
+		big.NewInt(2),
+		raw([4]uint64{0, 0, 0, 1 << 32}),
+		new(big.Int).Lsh(big.NewInt(1), 128),
+		ref.Mod(ref.Two256(), ref.P),
+		raw([4]uint64{1 << 63, 0, 0, 0}),
+		ref.Mod(new(big.Int).ModInverse(ref.Two256(), ref.P), ref.P),
+		raw([4]uint64{0, 1, 0, 0}),
+		raw([4]uint64{0, 0, 1 << 63, 0}),
+		raw([4]uint64{0xffffffff00000000, 0, 0, 0}),
 	}
 
 	if seed := ev.Seed(); seed != 0 {
